@@ -495,6 +495,13 @@ func enumerate(tier string, deadline time.Time, emit func(Case) bool) (complete 
 	// E1: every chain of 1..2 calls over the full catalogue x 4 finishers
 	for n := 1; n <= 2 && ok; n++ {
 		chains(full, n, func(ch []cg.Call) {
+			if n == 2 && tier != "thorough" {
+				// quick: the single-call-group family is paired with the representative units only
+				a, b := units[ch[0].Unit], units[ch[1].Unit]
+				if (a.Ext && b.Rep == 0) || (b.Ext && a.Rep == 0) {
+					return
+				}
+			}
 			for _, f := range allFin {
 				out(Case{Chain: ch, Inline: -1, Fin: f})
 			}
@@ -671,7 +678,7 @@ func main() {
 	run.Finish(map[string]interface{}{
 		"evaluations":                       st.evaluations,
 		"distinct_nontrivial":               s.nontriv.Len(),
-		"rule":                              fmt.Sprintf("unit catalogue of %d units (12 atoms x renderings raw/placeholder/kv/map/struct/clause/named; two-operand AND/OR units with the fixed separator catalogue of 8 spellings, redundant parentheses, map, struct, clause.And/Or/Not/Expr, grouped sub-builders, named args; NOT atoms; depth-3 units; primary-key value forms; empty units). Enumerated: every chain of 1-2 Where/Or/Not calls (first != Or) over all units x Find/Count/Update/Delete; every chain of 3 calls over the class representatives (quick: Rep=1, thorough: Rep>=1) x 4 finishers; chains of 0-1 calls over all units x inline condition (every unit; quick with 1 call: the Rep>=1 units) x key{none,14} x Find/Delete (2 calls over representatives); chains of 0-2 calls x model key {1,14,slice} x Find/Update/Delete. Non-trivial = the reference id set differs from at least one other-precedence reading of the same program (strict left-to-right fold, or units spliced in without parentheses); distinct by (chain, inline, key, finisher)", nUnits),
+		"rule":                              fmt.Sprintf("unit catalogue of %d units (12 atoms x renderings raw/placeholder/kv/map/struct/clause/named; two-operand AND/OR units with the fixed separator catalogue of 8 spellings, redundant parentheses, map, struct, clause.And/Or/Not/Expr, grouped sub-builders, named args; NOT atoms; depth-3 units; primary-key value forms; empty units). Enumerated: every chain of 1-2 Where/Or/Not calls (first != Or) over all units x Find/Count/Update/Delete (quick: the single-call-group family db.Or(x)/db.Not(x)/db.Where(x) around every raw spelling is paired only with the Rep>=1 units in 2-call chains); every chain of 3 calls over the class representatives (quick: Rep=1, thorough: Rep>=1) x 4 finishers; chains of 0-1 calls over all units x inline condition (every unit; quick with 1 call: the Rep>=1 units) x key{none,14} x Find/Delete (2 calls over representatives); chains of 0-2 calls x model key {1,14,slice} x Find/Update/Delete. Non-trivial = the reference id set differs from at least one other-precedence reading of the same program (strict left-to-right fold, or units spliced in without parentheses); distinct by (chain, inline, key, finisher)", nUnits),
 		"samples":                           s.samples.List(),
 		"exhaustive":                        complete,
 		"units":                             nUnits,
